@@ -668,7 +668,7 @@ func (c *Ctx) lockLeakRule(rule string) {
 			// a helper may hand the held lock to its callers (e.g. lookup-and-lock): then every
 			// path of the enclosing activity must release it
 			if !p.activityRoot(fn) {
-				if ret = reachFromUp(call, isReturn, isRelease); ret == nil {
+				if ret = reachFromUp(call, isEnd, isRelease); ret == nil {
 					c.ok(rule, construct, c.ipos(call), "returned held to the callers, which release it on every path")
 					return
 				}
